@@ -281,3 +281,4 @@ PROPS['C03']['confirm_known'] = _known_confirm('C03', PROPS['C03']['confirm_know
 PROPS['C11'] = _with_extra(PROPS['C11'], direct2.c11_assign_ansistr_run)
 PROPS['C07'] = _with_extra(PROPS['C07'], direct2.c07_esc_run)
 PROPS['C04'] = _with_extra(PROPS['C04'], direct2.c04_esc_run)
+PROPS['C08'] = _with_extra(PROPS['C08'], direct2.c08_copy_run)
